@@ -3,14 +3,61 @@
 # check.sh <property> --replay <file> [-v]        replay a reported violation
 . /verif/scripts/common.sh
 id=${1:?property id}; shift
-case "$id" in
-C18|C14T) variant=thr ;;
-*) variant=asan ;;
-esac
-variant=${VERIF_VARIANT:-$variant}
-if ! bash "$V/scripts/build.sh" "$variant" 1>&2; then
-	echo "BUILD-ERROR: cannot build the simulator against $REPO" >&2
-	exit 2
-fi
 export LOCPATH=$B/locale
-exec "$B/jsim-$variant" "$id" "$@"
+[ -f "$B/locale/vf_COMMA/LC_NUMERIC" ] || bash "$V/locale/build_locale.sh" 1>&2 || true
+
+build() {
+	if ! bash "$V/scripts/build.sh" "$1" 1>&2; then
+		echo "BUILD-ERROR: cannot build the simulator ($1) against $REPO" >&2
+		exit 2
+	fi
+}
+
+# replay: the file names the batch it belongs to
+if [ "${1:-}" = "--replay" ]; then
+	file=${2:?replay file}
+	pid=$(awk '$1=="prop"{print $2; exit}' "$file" 2>/dev/null)
+	case "$pid" in
+	C18|C14T) variant=thr ;;
+	*) variant=asan ;;
+	esac
+	build "$variant"
+	exec "$B/jsim-$variant" "$pid" "$@"
+fi
+
+case "$id" in
+C18)
+	build thr
+	exec "$B/jsim-thr" C18 "$@"
+	;;
+C14)
+	# two batches: single-thread (ASan/UBSan binary) and multi-thread (thread simulator binary)
+	build asan
+	"$B/jsim-asan" C14 "$@"; rc1=$?
+	build thr
+	"$B/jsim-thr" C14T "$@"; rc2=$?
+	python3 - <<'PY'
+import json, os
+a, b = "/verif/evidence/C14.json", "/verif/evidence/C14T.json"
+try:
+    ea, eb = json.load(open(a)), json.load(open(b))
+    cb = eb["coverage"]
+    ea["coverage"]["multithread_batch"] = {k: cb[k] for k in ("evaluations", "distinct_nontrivial", "rule", "samples", "steps", "probes", "probes_at_zero",
+                                           "nontrivial_runs", "logical_steps", "runs_per_hour", "components_real", "components_stubbed", "violation_reports") if k in cb}
+    ea["coverage"]["multithread_batch"]["wall_s"] = eb.get("wall_s")
+    ea["violations"] = int(ea.get("violations", 0)) + int(eb.get("violations", 0))
+    ea["wall_s"] = float(ea.get("wall_s", 0)) + float(eb.get("wall_s", 0))
+    json.dump(ea, open(a, "w"), indent=1)
+    os.remove(b)
+except Exception as ex:
+    print("note: could not merge multi-thread evidence:", ex)
+PY
+	if [ $rc1 -eq 2 ] || [ $rc2 -eq 2 ]; then exit 2; fi
+	if [ $rc1 -ne 0 ] || [ $rc2 -ne 0 ]; then exit 1; fi
+	exit 0
+	;;
+*)
+	build "${VERIF_VARIANT:-asan}"
+	exec "$B/jsim-${VERIF_VARIANT:-asan}" "$id" "$@"
+	;;
+esac
